@@ -148,3 +148,76 @@ func archiveBackendScenarios(r *h.Run) {
 		}
 	}
 }
+
+// concurrentFileHashScenarios: independent callers hashing DIFFERENT files with the same algorithm at the same time, each
+// through the file system's own FileHash entry point (every call builds its hasher): each digest must be the reference
+// digest of that file's bytes. (The property's histories on ONE hasher object are sequential; this is about callers that
+// share nothing but the library.)
+func concurrentFileHashScenarios(r *h.Run) {
+	tmp, err := os.MkdirTemp("", "verif-c20-conc-*")
+	if err != nil {
+		r.Note("cannot create temp dir: " + err.Error())
+		return
+	}
+	defer os.RemoveAll(tmp)
+	const n = 8
+	size := r.N(200000, 2000000)
+	for bname, fs := range map[string]filesystem.FS{"os": filesystem.NewStandardFileSystem(), "mem": filesystem.NewInMemoryFileSystem()} {
+		contents := make([][]byte, n)
+		paths := make([]string, n)
+		for i := range contents {
+			contents[i] = randBytes(r, size+i*4099)
+			paths[i] = filepath.Join(tmp, fmt.Sprintf("c%d.bin", i))
+			if bname == "mem" {
+				paths[i] = fmt.Sprintf("/c%d.bin", i)
+			}
+			if err := fs.WriteFile(paths[i], contents[i], 0o644); err != nil {
+				r.Note("write failed: " + err.Error())
+				return
+			}
+		}
+		for _, algo := range algos {
+			want := make([]string, n)
+			for i := range want {
+				want[i] = ref(algo, contents[i])
+			}
+			bad := 0
+			firstBad := ""
+			for round := 0; round < 3 && bad == 0; round++ {
+				got := make([]string, n)
+				errs := make([]error, n)
+				start := make(chan struct{})
+				done := make(chan int, n)
+				for i := 0; i < n; i++ {
+					go func(i int) {
+						defer func() {
+							if p := recover(); p != nil { // a hash object used by two callers at once may also blow up
+								errs[i] = fmt.Errorf("panic: %v", p)
+							}
+							done <- i
+						}()
+						<-start
+						got[i], errs[i] = fs.FileHash(algo, paths[i])
+					}(i)
+				}
+				close(start)
+				for i := 0; i < n; i++ {
+					<-done
+				}
+				for i := 0; i < n; i++ {
+					if errs[i] != nil || got[i] != want[i] {
+						bad++
+						if firstBad == "" {
+							firstBad = fmt.Sprintf("file %d of %d (%d bytes): got %q err %v", i, n, len(contents[i]), got[i], errs[i])
+						}
+					}
+				}
+			}
+			r.Eval()
+			r.Count("file-hash:concurrent-callers:" + bname)
+			if bad > 0 {
+				r.Fail("file-hash-differs:concurrent-callers:"+bname+":"+algo, fmt.Sprintf("%d independent callers hashed %d different files with %s at the same time through fs.FileHash: %d digest(s) are not the digest of the file's bytes (%s)", n, n, algo, bad, firstBad), map[string]any{"algo": algo, "backend": bname, "callers": n})
+			}
+		}
+	}
+}
